@@ -77,7 +77,12 @@ func (r *run) fail(family, oracle, fp, format string, a ...interface{}) {
 
 func (r *run) probe(n string) { r.res.Probes[n]++ }
 func (r *run) fault(n string) { r.res.Faults[n]++ }
+var liveLog = os.Getenv("VERIF_LIVELOG") != ""
+
 func (r *run) logf(f string, a ...interface{}) {
+	if liveLog {
+		fmt.Fprintf(os.Stderr, "LIVE %03d "+f+"\n", append([]interface{}{r.step}, a...)...)
+	}
 	if r.verbose {
 		r.res.Log = append(r.res.Log, fmt.Sprintf("%03d t=%-8s ", r.step, time.Since(r.simStart).Round(time.Millisecond))+fmt.Sprintf(f, a...))
 	}
